@@ -40,6 +40,8 @@ MANIFEST = {
 }
 BUDGET = {'quick': 75, 'thorough': 1500}
 MISMATCH_BUDGET = 0.0
+ESCALATE_BUDGET = 150     # s, thorough-size correspondence after an edit of the transcribed source
+SEARCH_BUDGET = 150
 RULE = ('systems: max_grad = 100*k Hz/m in [1e5, 3e6], max_slew chosen so that ramp-to-limit takes 2.5..60 rasters, raster in '
         '{4,5,10,20} us; ends drawn from {0, +-99% limit, random, equal, opposite, tiny}; areas from {0, tiny, fraction of the '
         'one-ramp area, area of the direct ramp, area of a rastered max-slew triangle/trapezoid +- small relative offsets (dead-zone '
@@ -54,7 +56,8 @@ ASSUMPTIONS = ['generated cases keep every ceil() argument of the ramp-time comp
                'theorem eta_minimal_partial assumes Monotone_feasible_from (lin_max a): once a duration beyond the linear-search '
                'range has a solution every longer one has (the assumption behind the binary search in the code)']
 
-FUEL_D, FUEL_B = 40, 200
+FUEL_D, FUEL_B = 12, 200      # doubling fuel 12: up to 4096 x the ramp-to-zero duration (the generator stays far below)
+MAX_FIND_D = 6000            # longest duration handed to the model's find_solution
 IMPL_TIMEOUT = 20          # seconds; a search that never terminates is reported as a failure, not waited for
 GUARD = Fr(1, 10 ** 9)
 
@@ -376,14 +379,20 @@ def near_threshold(c, d, sol):
     MG, MS, R, gs, ge, A = case_vals(c)
     mg, ms = Fr(99, 100) * MG, Fr(99, 100) * MS
     band = Fr(1, 10 ** 7)
+    eps = Fr(1, 10 ** 9)
     for sg in (1, -1):
+        # ramp_up_time = round(x); branch test  sg*grad_start + ramp_up_time*max_slew*raster > max_grad + eps
         x = (d * ms * R - sg * (gs - ge)) / (2 * ms * R)
-        fr_ = x - math.floor(x)
-        if abs(fr_ - Fr(1, 2)) < band:
-            return 'round-tie'
-        for ru0 in {math.floor(x), math.floor(x) + 1}:
-            v = sg * gs + ru0 * ms * R
-            if abs(v - mg) < band * mg + Fr(2, 10 ** 9):
+        fl = math.floor(x)
+        if abs(x - fl - Fr(1, 2)) < band:
+            r0s = (fl, fl + 1)                      # binary64 may round the tie either way
+        else:
+            r0s = (fl if x - fl < Fr(1, 2) else fl + 1,)
+        decisions = {sg * gs + r0 * ms * R > mg + eps for r0 in r0s}
+        if len(decisions) == 2:
+            return 'round-tie'                      # the tie decides which maximum-slew candidate is built
+        for r0 in r0s:
+            if abs(sg * gs + r0 * ms * R - mg - eps) < band * mg:
                 return 'branch-threshold'
     if sol is not None:
         ru, fl, rd = sol[0], sol[1], sol[2]
@@ -426,6 +435,8 @@ def compare_find(ctx, c, closure, durations, oracle_ok):
                 diff = {'duration': d, 'impl_bad_triple': list(s)}
         if diff:
             why = near_threshold(c, d, s if s is not None else (m[0], m[1], m[2]))
+            if why is None and s is not None and m is not None:
+                why = near_threshold(c, d, (m[0], m[1], m[2]))
             if why and oracle_ok:
                 ctx.benign_divergence('find', c, dict(diff, reason=why))
                 ctx.count('benign.find.' + why)
@@ -455,18 +466,33 @@ def compare_run(ctx, c, res, mres, oracle_ok, D):
                         'model': [mres['up'], mres['flat'], mres['down'], float(mres['amp'])]}
     if diff is None:
         return True
-    # a divergence is benign only if (i) the implementation's own output satisfies the oracle (or the case is outside the
-    # property's domain and the classes agree) and (ii) one of the durations probed by the implementation is decided at a
-    # float-vs-exact threshold
+    # a divergence of the end result is benign only if (i) the implementation's own output satisfies the oracle (or the
+    # case is outside the property's domain), (ii) it is EXPLAINED by per-duration differences: the model's find_solution
+    # disagrees (None vs solution) with the implementation's on at least one duration the implementation probed, and
+    # (iii) every such disagreement is decided within the float-vs-exact band of a limit, branch threshold or rounding tie.
+    # Equal per-duration results with a different end result are a search-logic mismatch.
+    probed = {}
+    for d, sol in res['probes']:
+        if 1 <= d <= MAX_FIND_D:
+            probed[d] = sol
     why = None
-    for d, s in res['probes']:
-        why = near_threshold(c, d, s)
-        if why:
-            break
-    if why is None and mres.get('cls') == 'OK':
-        for d in (mres['D'], mres['D'] - 1):
-            why = why or near_threshold(c, d, (mres['up'], mres['flat'], mres['down']) if d == mres['D'] else None)
-    if why and oracle_ok:
+    if probed and oracle_ok:
+        ds = sorted(probed)
+        t = Toks(ctx.model(['eta.find %s %d %s' % (args_tok(c), len(ds), ' '.join(ztok(d) for d in ds))])[0])
+        reasons = []
+        for d in ds:
+            m = None
+            if t.bool():
+                m = (t.z(), t.z(), t.z(), t.q(), t.q())
+            if (m is None) != (probed[d] is None):
+                reasons.append(near_threshold(c, d, probed[d] if probed[d] is not None else (m[0], m[1], m[2])))
+        if reasons and all(reasons):
+            why = reasons[0]
+        elif not reasons and 'impl_cost' in diff:
+            # same duration, other selection cost: a candidate at that duration sits on a threshold
+            why = near_threshold(c, mres['D'], (mres['up'], mres['flat'], mres['down'])) or \
+                near_threshold(c, mres['D'], probed.get(mres['D']))
+    if why:
         ctx.benign_divergence('run', c, dict(diff, reason=why))
         ctx.count('benign.run.' + why)
     else:
@@ -522,6 +548,9 @@ def process(ctx, c, rng, n_find):
     ctx.evaluated(('c12', c['MG'], c['MS'], c['R'], c['gs'], c['ge'], c['A']), nontrivial=nontrivial)
     if not ctx.model_available:
         return res, ok
+    if res['cls'] == 'TimeoutError':
+        ctx.count('model.skipped_after_impl_timeout')
+        return res, ok
     mres = parse_run(ctx.model([model_run_line(c)])[0])
     same = compare_run(ctx, c, res, mres, ok, D)
     if res.get('closure') is not None and n_find > 0:
@@ -532,7 +561,7 @@ def process(ctx, c, rng, n_find):
         extra = {rng.randint(1, max(3, min(2 * top, top + 60))) for _ in range(n_find)}
         if res['cls'] == 'OK':
             extra |= {Di - 1, Di + 1, Di + 2, Di + rng.randint(3, 12)}
-        ds = sorted(d for d in set(ds) | extra if d >= 1)
+        ds = sorted(d for d in set(ds) | extra if 1 <= d <= MAX_FIND_D)
         got = compare_find(ctx, c, res['closure'], ds, ok)
         if res['cls'] == 'OK' and any(s is None for d, s in got.items() if d > Di):
             ctx.count('dead_zone_seen_behind_result')
@@ -575,5 +604,5 @@ def replay(ctx, case):
         out['model'] = {k: (float(v) if isinstance(v, Fr) else v) for k, v in mres.items() if k not in ('tt', 'wave')}
         compare_run(ctx, case, res, mres, ok, D)
         if res.get('closure') is not None:
-            compare_find(ctx, case, res['closure'], sorted({d for d, _ in res['probes']})[:12], ok)
+            compare_find(ctx, case, res['closure'], sorted({d for d, _ in res['probes'] if d <= MAX_FIND_D})[:12], ok)
     return out
